@@ -3,6 +3,7 @@
 From Coq Require Import List ZArith Bool Lia.
 From GZgen Require C16Consts.
 From GZ Require Import C16.Model C16.ProofsMap C16.ModelW C16.ProofsW C16.ProofsWClamp.
+From GZ Require Import C16.Check C16.ProofsRefW.
 Import ListNotations.
 Open Scope Z_scope.
 
@@ -89,4 +90,17 @@ Proof.
   destruct cache_wheel_params_ok as [Hn Hi].
   rewrite cache_rewrite_uses_set_timer_today.
   apply cache_entry_expires_clamped_proof; assumption.
+Qed.
+
+(* the reference of Check.prop_ok is refined by the composed model at today's wheel
+   parameters and today's choice of SetTimer for rewrites *)
+Lemma cachew_refines_stamp_reference_today : forall limit ops,
+  forallb xx_in_scope ops = true ->
+  cwx_run (cw_new limit C16Consts.cache_slots C16Consts.cache_wheel_interval_ns
+                  C16Consts.cache_rewrite_uses_move_timer) ops =
+  refwx_run C16Consts.cache_wheel_interval_ns (mkRefW (s_new limit) []) ops.
+Proof.
+  intros limit ops H. destruct cache_wheel_params_ok as [Hn Hi].
+  rewrite cache_rewrite_uses_set_timer_today.
+  apply cachew_refines_stamp_reference_proof; assumption.
 Qed.
